@@ -211,6 +211,24 @@ func breakOne(g *ir.Gen, s *ir.Schema, types []*ir.Type, values []*ir.Value) str
 	if b.depth > a.depth {
 		n = b
 	}
+	// objects (and especially @oneOf objects) are few among the positions: prefer them sometimes
+	if rapid.IntRange(0, 2).Draw(t, "preferobject") == 0 {
+		var objs, oneofs []node
+		for _, x := range nodes {
+			if x.v.K == ir.VObj && x.t.Elem == nil && s.KindOf(x.t.Name) == ir.KindInput {
+				objs = append(objs, x)
+				if s.Input(x.t.Name).OneOf {
+					oneofs = append(oneofs, x)
+				}
+			}
+		}
+		if len(oneofs) > 0 && rapid.Bool().Draw(t, "preferoneof") {
+			objs = oneofs
+		}
+		if len(objs) > 0 {
+			n = objs[rapid.IntRange(0, len(objs)-1).Draw(t, "objnode")]
+		}
+	}
 	var kinds []string
 	if n.t.NonNull {
 		kinds = append(kinds, "null", "null")
@@ -220,7 +238,7 @@ func breakOne(g *ir.Gen, s *ir.Schema, types []*ir.Type, values []*ir.Value) str
 	kind := s.KindOf(n.t.Base())
 	switch {
 	case n.v.K == ir.VObj && named && kind == ir.KindInput:
-		kinds = append(kinds, "unknown-field", "unknown-field-case", "drop-field", "drop-field")
+		kinds = append(kinds, "unknown-field", "unknown-field-case", "drop-field", "drop-required", "drop-required")
 		if s.Input(n.t.Name).OneOf {
 			kinds = append(kinds, "oneof-second-key", "oneof-second-key", "oneof-null", "oneof-empty")
 		}
@@ -262,6 +280,24 @@ func breakOne(g *ir.Gen, s *ir.Schema, types []*ir.Type, values []*ir.Value) str
 			return "junk"
 		}
 		n.v.Del(n.v.O[rapid.IntRange(0, len(n.v.O)-1).Draw(t, "dropidx")].Key)
+	case "drop-required":
+		in := s.Input(n.t.Name)
+		dropped := false
+		for _, f := range in.Fields {
+			if f.T().NonNull && !f.HasDefault() && n.v.Has(f.Name) {
+				n.v.Del(f.Name)
+				dropped = true
+				break
+			}
+		}
+		if !dropped {
+			if len(n.v.O) == 0 {
+				set(ir.Num(g.SentinelInt()))
+				return "junk"
+			}
+			n.v.Del(n.v.O[0].Key)
+			return "drop-field"
+		}
 	case "oneof-second-key":
 		in := s.Input(n.t.Name)
 		for _, f := range in.Fields {
